@@ -168,6 +168,13 @@ def stepTraj (tr : Traj) (st : TrajRun) (q : String × String) : TrajRun :=
           | some m => { st with err := some s!"query {qt}: {m}" }
           | none => st
         | _ => { st with err := some "bad s/e answer" }
+    else if k = 'n' ∨ k = 'w' then
+      let r : R Player := if k = 'n' then next secF32 st.player else rewind secF32 tr
+      match r with
+      | .error e => { st with err := some s!"model error {e.code} on {qt}" }
+      | .ok p' =>
+        if atoks = ["0", toString p'.cur.startOff, toString p'.cur.length, if p'.hasMore then "1" else "0"] then { st with player := p' }
+        else { st with err := some s!"cursor call {qt}: model 0,{p'.cur.startOff},{p'.cur.length},{p'.hasMore} impl {ans}" }
     else { st with err := some s!"unknown query {qt}" }
 
 def opTraj (args impl : List String) : Verdict :=
